@@ -64,7 +64,7 @@ typedef boost::property_tree::ptree ptree;
 typedef amgcl::backend::numa_vector<Rhs> NV;
 static const double U = 1.1102230246251565e-16;
 
-struct Cfg { std::string coars, relax; unsigned npre = 1, npost = 1, ncycle = 1, pre_cycles = 1, coarse_enough = 10, max_levels = 0; bool direct = true; ptree p; J desc; };
+struct Cfg { std::string coars, relax; double alpha = 1.5; unsigned npre = 1, npost = 1, ncycle = 1, pre_cycles = 1, coarse_enough = 10, max_levels = 0; bool direct = true; ptree p; J desc; };
 
 // draw a configuration; wide = randomise the component parameters too; sym = keep npre == npost and the smoother parameters inside the theory's domain
 static Cfg draw(Rng &r, const std::string &coars, const std::string &relax, bool wide, bool sym, int ncycle_forced = 0) {
@@ -85,7 +85,7 @@ static Cfg draw(Rng &r, const std::string &coars, const std::string &relax, bool
         auto putb = [&](const char *k, bool v) { p.put(k, v); d.bl(k, v); };
         if (coars == "ruge_stuben") { if (r.coin()) putd("coarsening.eps_strong", r.uni(0.1, 0.5)); if (r.coin()) { putb("coarsening.do_trunc", r.coin()); putd("coarsening.eps_trunc", r.uni(0.05, 0.4)); } }
         else { if (r.coin()) putd("coarsening.aggr.eps_strong", r.uni(0.02, 0.2));
-            if (coars == "aggregation" && r.coin()) putd("coarsening.over_interp", r.uni(1.0, 1.8));
+            if (coars == "aggregation" && r.coin()) { c.alpha = r.uni(1.0, 1.8); putd("coarsening.over_interp", c.alpha); }
             if (coars == "smoothed_aggregation") { if (r.coin()) putd("coarsening.relax", r.uni(0.6, 1.2)); if (r.coin(0.4)) { putb("coarsening.estimate_spectral_radius", true); puti("coarsening.power_iters", r.coin() ? 0 : 5); } } }
         if (relax == "damped_jacobi") putd("relax.damping", r.uni(0.5, 1.0));
         if (relax == "ilu0" && r.coin()) putd("relax.damping", r.uni(0.7, 1.0));
@@ -247,9 +247,25 @@ static void sub_spd() {
             double bmin = eb.eigenvalues().minCoeff(), bmax = eb.eigenvalues().maxCoeff(), lmin = em.eigenvalues().minCoeff(), lmax = em.eigenvalues().maxCoeff();
             // eigenvalue error of the symmetric solver <= ~ n u ||.||_2 ; demand a margin of 100 n u
             double mg = 100 * n * 2 * U;
-            c.check(std::isfinite(bmin) && bmin > mg * bmax, "spd:not-positive:" + cfg.relax, "the symmetric part of B has a non-positive eigenvalue", J().n("lambda_min", bmin).n("lambda_max", bmax));
-            c.check(std::isfinite(lmin) && std::isfinite(lmax) && lmin > mg * std::max(1.0, lmax) && lmax < 2 - mg * 2, "spd:not-contracting:" + cfg.relax, "eigenvalues of B A leave (0, 2): rho(I - B A) >= 1", J().n("lambda_min", lmin).n("lambda_max", lmax));
-            double rho = std::max(std::fabs(1 - lmin), std::fabs(1 - lmax)); vf::obs_max("max_rho", rho); vf::obs_min("min_lambda_BA", lmin); vf::obs_max("max_lambda_BA", lmax);
+            // Domain of the contraction clause.  For the Galerkin coarsenings (R = P^T, A_c = R A P) the classical argument gives
+            // sigma(B A) in (0, 1] on every level.  Plain aggregation rescales the coarse operator, A_c = P^T A P / alpha, i.e. the
+            // coarse correction is over-weighted by alpha (documented "over-interpolation"): with lc = largest eigenvalue of B_c A_c
+            // of the level below, sigma(B A) of one visit lies in (0, max(1, alpha lc)], so a V-cycle only has the bound alpha^(L-1)
+            // and contraction is guaranteed iff every alpha lc < 2.  (Observed on the unchanged tree: default over_interp = 1.5,
+            // Gauss-Seidel, V-cycle, levels 225>32>5>1: lambda_max(BA) = 2.7.)  That is a property of the documented method, not of
+            // the code, so outside the guaranteed region only symmetry and the theoretical bound are asserted.
+            double alpha = cfg.coars == "aggregation" ? cfg.alpha : 1.0, lb = 1.0; bool guaranteed = true;
+            for (size_t l = nl; l-- > 1;) { double t = alpha * lb; if (!(t < 2)) guaranteed = false; lb = cfg.ncycle >= 2 ? (t < 2 ? 1.0 : (t - 1) * (t - 1)) : std::max(1.0, t); }   // lb = bound for one visit of level l-1
+            if (guaranteed) {
+                c.check(std::isfinite(bmin) && bmin > mg * bmax, "spd:not-positive:" + cfg.relax, "the symmetric part of B has a non-positive eigenvalue", J().n("lambda_min", bmin).n("lambda_max", bmax));
+                c.check(std::isfinite(lmin) && std::isfinite(lmax) && lmin > mg * std::max(1.0, lmax) && lmax < 2 - mg * 2, "spd:not-contracting:" + cfg.relax, "eigenvalues of B A leave (0, 2): rho(I - B A) >= 1", J().n("lambda_min", lmin).n("lambda_max", lmax).n("levels", nl));
+                c.check(std::isfinite(lmax) && lmax <= lb * (1 + 1e-8), "spd:above-theoretical-bound:" + cfg.relax, "largest eigenvalue of B A exceeds the bound of the variational theory (1 for Galerkin coarsenings, alpha^(L-1) for rescaled aggregation)", J().n("lambda_max", lmax).n("bound", lb));
+                double rho = std::max(std::fabs(1 - lmin), std::fabs(1 - lmax)); vf::obs_max("max_rho", rho); vf::obs_min("min_lambda_BA", lmin); vf::obs_max("max_lambda_BA", lmax); vf::obs_sum("spd_cases_in_guaranteed_domain");
+            } else {
+                vf::obs_sum("spd_cases_aggregation_overinterpolation_outside_guarantee"); vf::obs_max("max_lambda_BA_outside_guarantee", lmax);
+                if (cfg.pre_cycles == 1) { c.check(std::isfinite(lmin) && lmin > mg * std::max(1.0, lmax), "spd:not-positive:" + cfg.relax, "B A has a non-positive eigenvalue", J().n("lambda_min", lmin));
+                    c.check(std::isfinite(lmax) && lmax <= lb * (1 + 1e-8), "spd:above-theoretical-bound:" + cfg.relax, "largest eigenvalue of B A exceeds alpha^(L-1), the bound for rescaled aggregation", J().n("lambda_max", lmax).n("bound", lb).n("alpha", alpha).n("levels", nl)); } }
+            double rho = std::max(std::fabs(1 - lmin), std::fabs(1 - lmax));
             if (nl >= 2) c.nontrivial();
             vf::obs_add("cells_spd", cfg.coars + "/" + cfg.relax + (ncyc == 1 ? "/V" : "/W"));
             vf::sample("spd", J().s("family", fam).n("n", n).s("coarsening", cfg.coars).s("relax", cfg.relax).n("npre_npost", cfg.npre).n("ncycle", cfg.ncycle).s("level_sizes", sizes(a)).n("asymmetry_rel", asym / mB).n("rho", rho));
